@@ -41,6 +41,7 @@ Definition sx_pkt (p : pkt) : sx :=
   | PData n d => L [I 3; sxN n; B d]
   | POack o => L [I 6; L (map sx_pair o)]
   | PError c => L [I 5; sxN c]
+  | PMalformed r => L [I 99; B r]
   end.
 Definition sx_tr (e : tr) : sx :=
   match e with
@@ -60,6 +61,7 @@ Definition de_pkt (x : sx) : option pkt :=
   | L [I 3%Z; n; B d] => obind (asN n) (fun n => Some (PData n d))
   | L [I 6%Z; o] => obind (asListOf de_pair o) (fun o => Some (POack o))
   | L [I 5%Z; c] => obind (asN c) (fun c => Some (PError c))
+  | L [I 99%Z; B r] => Some (PMalformed r)
   | _ => None
   end.
 Definition de_tr (x : sx) : option tr :=
